@@ -9,7 +9,7 @@ import sys
 ROOT = os.path.join(os.path.dirname(os.path.dirname(os.path.abspath(__file__))), "coq", "theories")
 
 
-STANDALONE = {"AckProofs", "LocksProofs", "LedgerProofs", "LedgerUpdProofs", "PoolProofs", "WindowProofs", "MicroProofs", "MicroStats", "MicroBound", "MicroBal", "MicroAll", "MicroProv", "MicroLedger", "PrecondProofs"}
+STANDALONE = {"AckProofs", "LocksProofs", "LedgerProofs", "LedgerUpdProofs", "PoolProofs", "WindowProofs", "MicroProofs", "MicroStats", "MicroBound", "MicroBal", "MicroAll", "MicroProv", "MicroLedger", "MicroFifo", "PrecondProofs"}
 
 
 def statements(modname):
@@ -128,8 +128,8 @@ spec("C15_micro", "Hit accounting with reads split between the store lookup and 
 spec("C02_micro", "Reads split at their schedule points", [M, "MicroBal", "MicroAll", "MicroProv"], [
     ("MicroProv", "micro_store_value_provenance", None), (M, "mcall_atomic", None), ("MicroAll", "micro_hidden_run", "deleted_value_never_returned_micro"),
 ])
-spec("C11_micro", "Writes split between building the command and sending it", [M], [
-    (M, "mcall_atomic", None), (M, "mdelete_atomic", None), (M, "mput_atomic", None), (M, "micro_schedule_refines", None),
+spec("C11_micro", "Writes split between building the command and sending it; the queue at every micro step", [M, "MicroFifo"], [
+    ("MicroFifo", "micro_queue_fifo_all", None), ("MicroFifo", "micro_worker_one_at_a_time", None), (M, "mcall_atomic", None), (M, "mdelete_atomic", None), (M, "mput_atomic", None), (M, "micro_schedule_refines", None),
 ])
 spec("C01", "Total weight never exceeds the configured cache weight", [I, A], [
     (A, "used_bounded_step", None), (A, "used_bounded_run", None), (I, "used_nonneg", None),
